@@ -16,10 +16,16 @@ import (
 	"strings"
 	"time"
 
+	"archive/tar"
+	"io"
+
+	"github.com/santhosh-tekuri/jsonschema/v5"
 	pb "google.golang.org/protobuf/proto"
 
 	"github.com/janelia-flyem/dvid/datastore"
 	"github.com/janelia-flyem/dvid/datatype/common/proto"
+	"github.com/janelia-flyem/dvid/dvid"
+	"github.com/janelia-flyem/dvid/storage"
 	"verif/harness/dv"
 	"verif/harness/lib"
 )
@@ -41,6 +47,33 @@ type OpSpec struct {
 	Items   []KV     `json:"items,omitempty"`
 	Meta    int      `json:"meta,omitempty"`
 	Val     string   `json:"val,omitempty"`
+	// the second branch and the "inmemory" configuration
+	Branch    bool   `json:"branch,omitempty"`    // the request goes to the head of branch "b"
+	From      int    `json:"from,omitempty"`      // kind "branch": master version (counted from the root) to branch from
+	CfgBranch bool   `json:"cfgbranch,omitempty"` // kind "config": ":b"
+	CfgStatic []VRef `json:"cfgstatic,omitempty"` // kind "config": version uuids
+}
+
+// VRef names a version: the N-th of master counted from the root, or the N-th of branch "b"
+type VRef struct {
+	B bool `json:"b,omitempty"`
+	N int  `json:"n"`
+}
+
+func (v VRef) term() string {
+	if v.B {
+		return fmt.Sprintf("(VB %d)", v.N)
+	}
+	return fmt.Sprintf("(VM %d)", v.N)
+}
+
+type RefRead struct {
+	Ref  VRef     `json:"ref"`
+	Read ReadSpec `json:"read"`
+}
+type PhaseSpec struct {
+	Ops   []OpSpec  `json:"ops"`
+	Reads []RefRead `json:"reads"`
 }
 type ReadSpec struct {
 	Kind   string   `json:"kind"` // key keys all fields counts keyrange krv keyvalues query meta
@@ -53,18 +86,47 @@ type ReadSpec struct {
 	Query  string   `json:"query,omitempty"`
 	OnlyID bool     `json:"onlyid,omitempty"`
 	Meta   int      `json:"meta,omitempty"`
+	Enc    int      `json:"enc,omitempty"` // keyvalues / krv: 0 json, 1 tar, 2 protobuf
 }
 type CaseSpec struct {
 	Name  string     `json:"name"`
 	Ops   []OpSpec   `json:"ops"`
 	Reads []ReadSpec `json:"reads"`
 	Tail  []OpSpec   `json:"tail"` // sent to the child after P5; then the parent is read again (P6)
+	// then: requests (configuration, restart, branch) followed by reads of named versions
+	Phases []PhaseSpec `json:"phases,omitempty"`
 }
 
 var metaNames = []string{"json_schema", "schema", "schema_batch"}
 
 // the validation schema used by generated histories: field "n" must be an integer or null
 const theSchema = `{"type":"object","properties":{"n":{"type":["integer","null"]}}}`
+
+// a second one, so that which schema is in force is observable: "n" must be a string or null
+const schema2 = `{"type":"object","properties":{"n":{"type":["string","null"]}}}`
+
+var knownSchemas = []string{theSchema, schema2}
+var compiledSchemas = map[string]*jsonschema.Schema{}
+
+// the validator's verdicts on a body, as the model wants them: the known schemas that reject it
+func (t *table) verdicts(body string) string {
+	o := []string{}
+	for _, src := range knownSchemas {
+		sch := compiledSchemas[src]
+		if sch == nil {
+			sch = jsonschema.MustCompileString("schema.json", src)
+			compiledSchemas[src] = sch
+		}
+		var v interface{}
+		if err := json.Unmarshal([]byte(body), &v); err != nil {
+			continue
+		}
+		if sch.Validate(v) != nil {
+			o = append(o, "("+t.str(src)+",false)")
+		}
+	}
+	return "[" + strings.Join(o, ";") + "]"
+}
 
 // ---------- string table and Coq printers ----------
 
@@ -198,7 +260,15 @@ func (t *table) result(rs ReadSpec, r dv.Resp) string {
 	switch rs.Kind {
 	case "key":
 		return t.objOpt(r)
-	case "meta":
+	case "headkey", "headmeta":
+		switch r.Status {
+		case 200:
+			return "XBool true"
+		case 404:
+			return "XBool false"
+		}
+		return "XErr"
+	case "meta", "schemainforce":
 		if r.Status == 404 {
 			return "XBytes None"
 		}
@@ -210,9 +280,12 @@ func (t *table) result(rs ReadSpec, r dv.Resp) string {
 	if r.Status != 200 {
 		return "XErr"
 	}
-	v, err := decode(r.Body)
-	if err != nil {
-		return "XErr (* undecodable: " + strings.ReplaceAll(string(r.Body), "*", "") + " *)"
+	var v interface{}
+	if rs.Enc == 0 || (rs.Kind != "krv" && rs.Kind != "keyvalues") {
+		var err error
+		if v, err = decode(r.Body); err != nil {
+			return "XErr (* undecodable *)"
+		}
 	}
 	asIDs := func(l []interface{}) string {
 		ids := []uint64{}
@@ -239,6 +312,9 @@ func (t *table) result(rs ReadSpec, r dv.Resp) string {
 		sort.Strings(o)
 		return "XObjs [" + strings.Join(o, ";") + "]"
 	}
+	if rs.Enc != 0 && (rs.Kind == "krv" || rs.Kind == "keyvalues") {
+		return t.binaryKVs(rs, r.Body)
+	}
 	list, _ := v.([]interface{}) // JSON null decodes to a nil list: the empty result
 	switch rs.Kind {
 	case "keys", "keyrange":
@@ -253,6 +329,14 @@ func (t *table) result(rs ReadSpec, r dv.Resp) string {
 		}
 		sort.Strings(ss)
 		return "XNames " + t.strs(ss)
+	case "fieldtimes":
+		m, _ := v.(map[string]interface{})
+		o := []string{}
+		for _, k := range sortedKeys(m) {
+			ts, _ := m[k].(string)
+			o = append(o, fmt.Sprintf("(%s,%s)", t.str(k), t.str(ts)))
+		}
+		return "XTimes [" + strings.Join(o, ";") + "]"
 	case "counts":
 		m, _ := v.(map[string]interface{})
 		o := []string{}
@@ -287,6 +371,64 @@ func (t *table) result(rs ReadSpec, r dv.Resp) string {
 	}
 	return "XErr"
 }
+// tar and protobuf forms of keyvalues / keyrangevalues
+func (t *table) binaryKVs(rs ReadSpec, body []byte) string {
+	type kv struct {
+		k uint64
+		v []byte
+	}
+	var kvs []kv
+	if rs.Enc == 1 {
+		tr := tar.NewReader(bytes.NewReader(body))
+		for {
+			hdr, err := tr.Next()
+			if err == io.EOF {
+				break
+			}
+			if err != nil {
+				return "XErr (* bad tar *)"
+			}
+			val, _ := io.ReadAll(tr)
+			u, _ := strconv.ParseUint(hdr.Name, 10, 64)
+			kvs = append(kvs, kv{u, val})
+		}
+	} else {
+		var pkvs proto.KeyValues
+		if err := pb.Unmarshal(body, &pkvs); err != nil {
+			return "XErr (* bad protobuf *)"
+		}
+		for _, x := range pkvs.Kvs {
+			u, _ := strconv.ParseUint(x.Key, 10, 64)
+			kvs = append(kvs, kv{u, x.Value})
+		}
+	}
+	sort.SliceStable(kvs, func(i, j int) bool { return kvs[i].k < kvs[j].k })
+	o := []string{}
+	for _, x := range kvs {
+		var ot string
+		if len(x.v) > 0 {
+			v, err := decode(x.v)
+			m, ok := v.(map[string]interface{})
+			if err != nil || !ok {
+				return "XErr (* bad value *)"
+			}
+			ot = t.obj(m)
+		}
+		switch {
+		case rs.Kind == "krv":
+			o = append(o, fmt.Sprintf("(%d,%s)", x.k, ot))
+		case len(x.v) == 0:
+			o = append(o, fmt.Sprintf("(%d,None)", x.k))
+		default:
+			o = append(o, fmt.Sprintf("(%d,Some %s)", x.k, ot))
+		}
+	}
+	if rs.Kind == "krv" {
+		return "XKVs [" + strings.Join(o, ";") + "]"
+	}
+	return "XKVOs [" + strings.Join(o, ";") + "]"
+}
+
 func mustInt(s string) int64 { i, _ := strconv.ParseInt(s, 10, 64); return i }
 
 // every key of every query object is "bodyid" (the code then answers by direct lookups)
@@ -324,16 +466,78 @@ func queryObjs(q string) []map[string]interface{} {
 
 type runner struct {
 	t        *table
+	target   string // the version the current request goes to
 	uuid     string // head of master
 	parent   string
 	locked   bool
-	compiled bool   // replica of d.compiledSchema != nil (the validator is an oracle of the model)
-	schemaAt string // json_schema bytes in the store at the head ("" none)
+	root     string
+	masters  []string // master versions from the root
+	branches []string // versions of branch "b"
+	bLocked  bool
 	nreq     int
 	strings  map[string]bool // every string value seen in a stored annotation (regexp oracle domain)
 }
 
-func (r *runner) url(rest string) string { return "/api/node/" + r.uuid + "/nj/" + rest }
+func (r *runner) url(rest string) string { return "/api/node/" + r.target + "/nj/" + rest }
+
+// a negative N counts from the head: -1 the head, -2 its parent
+func (r *runner) norm(v VRef) VRef {
+	if v.N < 0 {
+		if v.B {
+			v.N += len(r.branches)
+		} else {
+			v.N += len(r.masters)
+		}
+	}
+	return v
+}
+
+func (r *runner) uuidOf(v VRef) string {
+	if v.N < 0 {
+		return ""
+	}
+	if v.B {
+		if v.N < len(r.branches) {
+			return r.branches[v.N]
+		}
+		return ""
+	}
+	if v.N < len(r.masters) {
+		return r.masters[v.N]
+	}
+	return ""
+}
+func (r *runner) isOpen(v VRef) bool {
+	if v.B {
+		return v.N == len(r.branches)-1 && !r.bLocked
+	}
+	return v.N == len(r.masters)-1 && !r.locked
+}
+
+// the store's "inmemory" setting (read by neuronjson's Initialize at the next restart)
+func (r *runner) setConfig(op OpSpec) {
+	d, err := datastore.GetDataByUUIDName(dvid.UUID(r.root), "nj")
+	if err != nil {
+		fmt.Fprintln(os.Stderr, err)
+		os.Exit(2)
+	}
+	store, err := storage.GetAssignedStore(d)
+	if err != nil {
+		fmt.Fprintln(os.Stderr, err)
+		os.Exit(2)
+	}
+	vs := []string{}
+	if op.CfgBranch {
+		vs = append(vs, ":b")
+	}
+	for _, ref := range op.CfgStatic {
+		if u := r.uuidOf(ref); u != "" {
+			vs = append(vs, u)
+		}
+	}
+	cfg := store.GetStoreConfig()
+	cfg.Set("inmemory", vs)
+}
 
 func clsOf(resp dv.Resp) string {
 	switch {
@@ -396,21 +600,6 @@ func (r *runner) back(keys []uint64) string {
 	return "[" + strings.Join(o, ";") + "]"
 }
 
-// would the JSON-schema validator accept this body (oracle; our schema constrains only "n")
-func (r *runner) valid(body map[string]interface{}) bool {
-	if !r.compiled {
-		return true
-	}
-	switch x := body["n"].(type) {
-	case nil:
-		return true
-	case json.Number:
-		return intRe.MatchString(string(x))
-	default:
-		return false
-	}
-}
-
 func (r *runner) bodyTerm(body string) (string, map[string]interface{}) {
 	m := mustObj(body)
 	return r.t.obj(m), m
@@ -447,13 +636,22 @@ func (r *runner) exec(op OpSpec) string {
 	t := r.t
 	var term, cls, back string
 	back = "[]"
+	r.target = r.uuid
+	if op.Branch {
+		if len(r.branches) == 0 {
+			r.target = "00000000000000000000000000000000" // no such version: the model answers Err
+		} else {
+			r.target = r.branches[len(r.branches)-1]
+		}
+	}
+	defer func() { r.target = r.uuid }()
 	switch op.Kind {
 	case "post":
 		ts := safeNow()
-		bt, m := r.bodyTerm(op.Body)
+		bt, _ := r.bodyTerm(op.Body)
 		resp := dv.Post(r.url(fmt.Sprintf("key/%d?%s", op.Key, r.params(op, user))), []byte(op.Body))
 		cls = clsOf(resp)
-		term = fmt.Sprintf("OpPost %d %s %s %s %s %s %s", op.Key, bt, lib.CoqBool(r.valid(m)), t.str(user),
+		term = fmt.Sprintf("OpPost %d %s %s %s %s %s %s", op.Key, bt, t.verdicts(op.Body), t.str(user),
 			r.condsTerm(op), lib.CoqBool(op.Replace), t.str(ts))
 		back = r.back([]uint64{op.Key})
 	case "kvs":
@@ -463,8 +661,8 @@ func (r *runner) exec(op OpSpec) string {
 		keys := []uint64{}
 		for _, it := range op.Items {
 			kvs.Kvs = append(kvs.Kvs, &proto.KeyValue{Key: strconv.FormatUint(it.Key, 10), Value: []byte(it.Body)})
-			bt, m := r.bodyTerm(it.Body)
-			items = append(items, fmt.Sprintf("mkKV %d %s %s %s", it.Key, bt, lib.CoqBool(r.valid(m)), t.str(ts)))
+			bt, _ := r.bodyTerm(it.Body)
+			items = append(items, fmt.Sprintf("mkKV %d %s %s %s", it.Key, bt, t.verdicts(it.Body), t.str(ts)))
 			keys = append(keys, it.Key)
 		}
 		ser, _ := pb.Marshal(&kvs)
@@ -480,44 +678,95 @@ func (r *runner) exec(op OpSpec) string {
 	case "metapost":
 		resp := dv.Post(r.url(metaNames[op.Meta]+"?u="+user), []byte(op.Val))
 		cls = clsOf(resp)
-		if resp.Status == 200 && op.Meta == 0 {
-			r.compiled = true
-			r.schemaAt = op.Val
-		}
 		term = fmt.Sprintf("OpMetaPost %d %s", op.Meta, t.str(op.Val))
 	case "metadelete":
 		resp := dv.Delete(r.url(metaNames[op.Meta] + "?u=" + user))
 		cls = clsOf(resp)
-		if resp.Status == 200 && op.Meta == 0 {
-			r.schemaAt = "" // the compiled schema stays cached until the next restart
-		}
 		term = fmt.Sprintf("OpMetaDelete %d", op.Meta)
 	case "commit":
-		resp := dv.Commit(r.uuid)
+		resp := dv.Commit(r.target)
 		cls = clsOf(resp)
 		if resp.Status == 200 {
-			r.locked = true
+			if op.Branch {
+				r.bLocked = true
+			} else {
+				r.locked = true
+			}
 		}
 		term = "OpCommit"
 	case "newversion":
-		child, resp := dv.NewVersion(r.uuid)
+		child, resp := dv.NewVersion(r.target)
 		cls = clsOf(resp)
 		if resp.Status == 200 && child != "" {
-			r.parent, r.uuid, r.locked = r.uuid, child, false
+			if op.Branch {
+				r.branches, r.bLocked = append(r.branches, child), false
+			} else {
+				r.parent, r.uuid, r.locked = r.uuid, child, false
+				r.masters = append(r.masters, child)
+			}
 		}
 		term = "OpNewVersion"
+	case "branch":
+		from := r.uuidOf(VRef{N: op.From})
+		if from == "" {
+			from = "00000000000000000000000000000000"
+		}
+		child, resp := dv.Branch(from, "b")
+		cls = clsOf(resp)
+		if resp.Status == 200 && child != "" {
+			r.branches, r.bLocked = []string{child}, false
+		}
+		term = fmt.Sprintf("OpBranch %d", op.From)
+	case "config":
+		for i := range op.CfgStatic {
+			op.CfgStatic[i] = r.norm(op.CfgStatic[i])
+		}
+		r.setConfig(op)
+		cls = "OOk"
+		refs := []string{}
+		for _, ref := range op.CfgStatic {
+			refs = append(refs, ref.term())
+		}
+		term = fmt.Sprintf("OpSetConfig (mkCfg %s [%s])", lib.CoqBool(op.CfgBranch), strings.Join(refs, ";"))
 	case "reload":
 		datastore.CloseReopenTest()
-		r.compiled = r.schemaAt != ""
 		cls = "OOk"
 		term = "OpReload"
 	default:
 		panic("unknown op kind " + op.Kind)
 	}
+	if op.Branch {
+		term = "OpOnBranch (" + term + ")"
+	}
 	return fmt.Sprintf("mkObs (%s) %s %s", term, cls, back)
 }
 
-func (r *runner) read(uuid string, rs ReadSpec) dv.Resp {
+// probe: which JSON schema validates POSTs on an open version.  The two probe bodies fail the
+// bodyid check that follows validation, so they never change anything.
+func schemaInForce(b string) dv.Resp {
+	passed := func(body string) (bool, bool) {
+		resp := dv.Post(b+"key/1?u=probe", []byte(body))
+		if isPanic(resp) || resp.Status == 200 {
+			return false, false
+		}
+		return strings.Contains(string(resp.Body), "must match key"), true
+	}
+	pa, oka := passed(`{"bodyid":2,"n":"x"}`) // rejected by theSchema
+	pb2, okb := passed(`{"bodyid":2,"n":5}`)  // rejected by schema2
+	switch {
+	case !oka || !okb:
+		return dv.Resp{Status: 500}
+	case pa && pb2:
+		return dv.Resp{Status: 404}
+	case !pa && pb2:
+		return dv.Resp{Status: 200, Body: []byte(theSchema)}
+	case pa && !pb2:
+		return dv.Resp{Status: 200, Body: []byte(schema2)}
+	}
+	return dv.Resp{Status: 500}
+}
+
+func (r *runner) read(uuid string, open bool, rs ReadSpec) dv.Resp {
 	b := "/api/node/" + uuid + "/nj/"
 	q := []string{}
 	if rs.Show > 0 {
@@ -547,10 +796,38 @@ func (r *runner) read(uuid string, rs ReadSpec) dv.Resp {
 	case "keyrange":
 		return dv.Get(b + "keyrange/" + rs.A + "/" + rs.B)
 	case "krv":
-		return dv.Get(b + "keyrangevalues/" + rs.A + "/" + rs.B + qs("json=true"))
+		enc := []string{"json=true", "tar=true", "protobuf=true"}[rs.Enc]
+		return dv.Get(b + "keyrangevalues/" + rs.A + "/" + rs.B + qs(enc))
 	case "keyvalues":
+		switch rs.Enc {
+		case 1:
+			ks := make([]string, len(rs.Keys))
+			for i, k := range rs.Keys {
+				ks[i] = strconv.FormatUint(k, 10)
+			}
+			body, _ := json.Marshal(ks)
+			return dv.Do("GET", b+"keyvalues"+qs("jsontar=true"), body)
+		case 2:
+			var keys proto.Keys
+			for _, k := range rs.Keys {
+				keys.Keys = append(keys.Keys, strconv.FormatUint(k, 10))
+			}
+			body, _ := pb.Marshal(&keys)
+			return dv.Do("GET", b+"keyvalues"+qs(), body)
+		}
 		body, _ := json.Marshal(rs.Keys)
 		return dv.Do("GET", b+"keyvalues"+qs("json=true"), body)
+	case "fieldtimes":
+		return dv.Get(b + "fieldtimes")
+	case "headkey":
+		return dv.Do("HEAD", b+fmt.Sprintf("key/%d", rs.ID), nil)
+	case "headmeta":
+		return dv.Do("HEAD", b+metaNames[rs.Meta], nil)
+	case "schemainforce":
+		if open {
+			return schemaInForce(b)
+		}
+		return dv.Get(b + metaNames[0])
 	case "query":
 		extra := []string{}
 		if rs.OnlyID {
@@ -581,9 +858,17 @@ func (r *runner) reqTerm(rs ReadSpec) string {
 	case "keyrange":
 		return fmt.Sprintf("RKeyRange %s %s", t.str(rs.A), t.str(rs.B))
 	case "krv":
-		return fmt.Sprintf("RKeyRangeValues %s %s %s %s", t.str(rs.A), t.str(rs.B), fm, sh)
+		return fmt.Sprintf("RKeyRangeValues %s %s %s %s %d", t.str(rs.A), t.str(rs.B), fm, sh, rs.Enc)
 	case "keyvalues":
-		return fmt.Sprintf("RKeyValues %s %s %s", lib.CoqNList(rs.Keys), fm, sh)
+		return fmt.Sprintf("RKeyValues %s %s %s %d", lib.CoqNList(rs.Keys), fm, sh, rs.Enc)
+	case "fieldtimes":
+		return "RFieldTimes"
+	case "headkey":
+		return fmt.Sprintf("RHeadKey %d", rs.ID)
+	case "headmeta":
+		return fmt.Sprintf("RHeadMeta %d", rs.Meta)
+	case "schemainforce":
+		return "RSchemaInForce"
 	case "query":
 		qs := []string{}
 		for _, m := range queryObjs(rs.Query) {
@@ -642,7 +927,7 @@ func runCase(t *table, cs CaseSpec, run *lib.Run) string {
 		fmt.Fprintln(os.Stderr, err)
 		os.Exit(2)
 	}
-	r := &runner{t: t, uuid: root, strings: map[string]bool{}}
+	r := &runner{t: t, uuid: root, target: root, root: root, masters: []string{root}, strings: map[string]bool{}}
 	hist := []string{}
 	for _, op := range cs.Ops {
 		if op.Kind == "sleep" { // lets the wall clock reach another second: _time stamps become distinguishable
@@ -655,12 +940,12 @@ func runCase(t *table, cs CaseSpec, run *lib.Run) string {
 	}
 	// observation points
 	res := make([][]string, len(cs.Reads))
-	obs := func(uuid string) {
+	obs := func(uuid string, open bool) {
 		for i, rs := range cs.Reads {
-			res[i] = append(res[i], t.result(rs, r.read(uuid, rs)))
+			res[i] = append(res[i], t.result(rs, r.read(uuid, open, rs)))
 		}
 	}
-	obs(r.uuid) // P1
+	obs(r.uuid, !r.locked) // P1
 	if !r.locked {
 		if resp := dv.Commit(r.uuid); resp.Status != 200 {
 			fmt.Fprintf(os.Stderr, "final commit failed: %d %s\n", resp.Status, resp.Body)
@@ -673,18 +958,42 @@ func runCase(t *table, cs CaseSpec, run *lib.Run) string {
 		os.Exit(2)
 	}
 	parent := r.uuid
-	obs(parent) // P2
-	obs(child)  // P3
+	r.masters = append(r.masters, child)
+	obs(parent, false) // P2
+	obs(child, true)   // P3
 	datastore.CloseReopenTest()
-	obs(child)  // P4
-	obs(parent) // P5
+	obs(child, true)   // P4
+	obs(parent, false) // P5
 	r.parent, r.uuid, r.locked = parent, child, false
-	r.compiled = r.schemaAt != ""
 	tail := []string{}
 	for _, op := range cs.Tail {
 		tail = append(tail, r.exec(op))
 	}
-	obs(parent) // P6
+	obs(parent, false) // P6
+
+	// phases: requests, then reads of named versions
+	phases := []string{}
+	for _, ph := range cs.Phases {
+		ops := []string{}
+		for _, op := range ph.Ops {
+			ops = append(ops, r.exec(op))
+			run.Count("op:" + op.Kind)
+		}
+		rds := []string{}
+		for _, rr := range ph.Reads {
+			rr.Ref = r.norm(rr.Ref)
+			u := r.uuidOf(rr.Ref)
+			if u == "" {
+				continue
+			}
+			run.Count("refread:" + rr.Read.Kind)
+			rds = append(rds, fmt.Sprintf("((%s, %s), %s)", rr.Ref.term(), r.reqTerm(rr.Read), t.result(rr.Read, r.read(u, r.isOpen(rr.Ref), rr.Read))))
+		}
+		phases = append(phases, fmt.Sprintf("([%s],\n     [%s])", strings.Join(ops, ";\n      "), strings.Join(rds, ";\n      ")))
+	}
+	if len(cs.Phases) > 0 { // leave no configuration behind for the next case
+		r.setConfig(OpSpec{})
+	}
 
 	// regexp oracle
 	strs := []string{}
@@ -693,7 +1002,13 @@ func runCase(t *table, cs CaseSpec, run *lib.Run) string {
 	}
 	sort.Strings(strs)
 	rx := []string{}
-	for _, p := range patterns(cs.Reads) {
+	allReads := append([]ReadSpec{}, cs.Reads...)
+	for _, ph := range cs.Phases {
+		for _, rr := range ph.Reads {
+			allReads = append(allReads, rr.Read)
+		}
+	}
+	for _, p := range patterns(allReads) {
 		re, err := regexp.Compile(p)
 		if err != nil {
 			rx = append(rx, fmt.Sprintf("(%s,None)", t.str(p)))
@@ -733,7 +1048,7 @@ func runCase(t *table, cs CaseSpec, run *lib.Run) string {
 		}
 		reads = append(reads, fmt.Sprintf("(%s (%s, [%s]))", strings.Join(lets, " "), r.reqTerm(rs), strings.Join(refs, ";")))
 	}
-	return fmt.Sprintf("mkCase\n   [%s]\n   [%s]\n   [%s]\n   [%s]", strings.Join(hist, ";\n    "), strings.Join(rx, ";"), strings.Join(reads, ";\n    "), strings.Join(tail, ";\n    "))
+	return fmt.Sprintf("mkCase\n   [%s]\n   [%s]\n   [%s]\n   [%s]\n   [%s]", strings.Join(hist, ";\n    "), strings.Join(rx, ";"), strings.Join(reads, ";\n    "), strings.Join(tail, ";\n    "), strings.Join(phases, ";\n    "))
 }
 
 func main() {
@@ -777,12 +1092,14 @@ func main() {
 	}
 	dv.Close()
 
-	variant := "repaired"
+	// the implementation must match the repaired model, or the one with the first six repairs
+	// while C16-7/8 are pending; VERIF_C16_VARIANT=shipped|interim|repaired pins one model
+	variant := "[repaired; interim]"
 	if v := os.Getenv("VERIF_C16_VARIANT"); v != "" {
-		variant = v // e.g. shipped: compare with the model of the code before the fix: commits
+		variant = "[" + v + "]"
 	}
 	run.Header("From Coq Require Import String.", "From DV Require Import Base.Prelude Model.NJ Model.NJRun.", "Local Open Scope string_scope.", "Local Open Scope N_scope.",
-		"Definition impl_variant : variant := "+variant+".")
+		"Definition impl_variants : list variant := "+variant+".")
 	run.Header(t.defs...)
 	for i, cs := range specs {
 		kind := "random"
@@ -822,5 +1139,5 @@ func hashSpec(cs CaseSpec) uint32 {
 
 const tail = `
 Definition spec_fail := Eval vm_compute in c16_spec_fail cases.
-Definition model_mismatch := Eval vm_compute in c16_model_mismatch impl_variant cases.
+Definition model_mismatch := Eval vm_compute in c16_model_mismatch impl_variants cases.
 `
